@@ -255,7 +255,7 @@ Definition w_blank (opt : bool) (seg : N) (meta : option bytes) : wal :=
   {| w_opt := opt; w_segsize := seg; w_meta := meta; w_state := hs_empty; w_enti := 0; w_crc := 0;
      w_closed := []; w_seq := 0; w_idx := 0; w_tail := [];
      w_pw := {| pw_off := 0; pw_buf := 0; pw_flushed := 0 |};
-     w_sync := None; w_nrec := 1; w_tailrec := 0 |}.
+     w_sync := None; w_nrec := 1; w_tailrec := 0; w_tailsize := seg |}.
 
 Lemma w_create_eq opt seg meta :
   w_create opt seg meta =
@@ -399,7 +399,7 @@ Proof.
                w_closed := w_closed w1 ++ [{| sg_seq := w_seq w1; sg_idx := w_idx w1; sg_bytes := w_tail w1; sg_rec := w_tailrec w1 |}];
                w_seq := w_seq w1 + 1; w_idx := w_enti w1 + 1; w_tail := [];
                w_pw := {| pw_off := 0; pw_buf := 0; pw_flushed := 0 |};
-               w_sync := w_sync w1; w_nrec := w_nrec w1; w_tailrec := w_nrec w1 |}).
+               w_sync := w_sync w1; w_nrec := w_nrec w1; w_tailrec := w_nrec w1; w_tailsize := w_segsize w1 |}).
   assert (H2 : sync_name_inv w2).
   { intros s Hs. cbn [w2 w_sync w_seq w_idx] in *. destruct (H1 s Hs) as [Hle _]. split; lia. }
   clearbody w2.
@@ -462,4 +462,48 @@ Proof.
     intros s Hs. discriminate. }
   revert H0. generalize (w_create opt seg meta).
   induction ops as [|o r IH]; intros w Hw; [exact Hw|]. cbn [fold_left]. apply IH. now apply sync_name_step.
+Qed.
+
+(* ---------- the tail file keeps its allocated length while no cut happens ---------- *)
+Lemma w_encode_ts ty d w : w_tailsize (w_encode ty d w) = w_tailsize w.
+Proof. unfold w_encode, encode_rec, set_tail. reflexivity. Qed.
+Lemma save_state_ts s w : w_tailsize (save_state s w) = w_tailsize w.
+Proof. unfold save_state. destruct (hs_is_empty s); [reflexivity|]. now rewrite w_encode_ts. Qed.
+Lemma save_entries_ts : forall ents w, w_tailsize (fold_left (fun w e => save_entry e w) ents w) = w_tailsize w.
+Proof.
+  induction ents as [|e r IH]; intros w; [reflexivity|]. cbn [fold_left]. rewrite IH.
+  unfold save_entry. cbn [w_set_enti w_tailsize]. apply w_encode_ts.
+Qed.
+Lemma w_save_snapshot_ts sn w : w_tailsize (w_save_snapshot sn w) = w_tailsize w.
+Proof.
+  unfold w_save_snapshot. cbn [w_sync_op w_tailsize].
+  destruct (w_enti _ <? sn_index sn); cbn [w_set_enti w_tailsize]; apply w_encode_ts.
+Qed.
+
+Lemma w_step_ts w o : w_seq (w_step w o) = w_seq w -> w_tailsize (w_step w o) = w_tailsize w.
+Proof.
+  unfold w_step. intros Hq. destruct o as [st ents|sn|i|].
+  - unfold w_save in *. destruct (hs_is_empty st && _); [reflexivity|]. cbv zeta in *.
+    set (w2 := save_state st (fold_left (fun w e => save_entry e w) ents (w_add_nrec w _))) in *.
+    assert (H2 : w_tailsize w2 = w_tailsize w /\ w_seq w2 = w_seq w).
+    { subst w2. rewrite save_state_ts, save_entries_ts. split; [reflexivity|].
+      rewrite (proj2 (save_state_names _ _)). rewrite (proj2 (save_entries_names _ _)). reflexivity. }
+    destruct H2 as [Ht Hs]. clearbody w2.
+    destruct (pw_flushed (w_pw w2) <? w_segsize w2).
+    + destruct (negb _ || _); cbn [w_sync_op w_tailsize]; exact Ht.
+    + rewrite w_cut_seq in Hq. lia.
+  - now rewrite w_save_snapshot_ts.
+  - reflexivity.
+  - reflexivity.
+Qed.
+
+Theorem w_run_ts opt seg meta ops :
+  w_seq (w_run opt seg meta ops) = 0 -> w_tailsize (w_run opt seg meta ops) = seg.
+Proof.
+  induction ops as [|o ops IH] using rev_ind; intros Hz.
+  - unfold w_run. cbn [fold_left]. rewrite w_create_eq, w_save_snapshot_ts, !w_encode_ts. reflexivity.
+  - unfold w_run in *. rewrite fold_left_app in *. cbn [fold_left] in *.
+    set (w := fold_left w_step ops (w_create opt seg meta)) in *.
+    pose proof (w_step_seq_mono w o) as Hmono.
+    rewrite w_step_ts by lia. apply IH. lia.
 Qed.
